@@ -505,13 +505,14 @@ def line(op, cc, raw):
 
 
 def gen(c, quick):
+    """yields one batch of cases per regime (bounded memory in the thorough tier)"""
     rng = c.rng
     regs = sorted(SPEC)
-    NV = 260 if quick else 6000        # constructed-valid codes per regime (all their edits follow)
-    NR = 3500 if quick else 120000     # random codes of the national shape
+    NV = 260 if quick else 4000        # constructed-valid codes per regime (all their edits follow)
+    NR = 3500 if quick else 100000     # random codes of the national shape
     NF = 3000 if quick else 100000     # formatted variants
-    cases = []                          # (stream, cc, raw, canonical-or-None)
     for cc in regs:
+        cases = []                      # (stream, cc, raw, canonical-or-None)
         valids = []
         seen = set()
         tries = 0
@@ -568,13 +569,15 @@ def gen(c, quick):
             if cc == "CH" and rng.random() < 0.5:
                 raw = b + rng.choice(["MWST", "TVA", "IVA"]) * rng.randint(1, 2)
             cases.append((cc + "/doubled-prefix(informational)", cc, raw, None))
+        yield cases
+    cases = []
     for cc in NO_REGIME + ["US"]:
         for _ in range(300 if quick else 5000):
             b = "".join(rng.choice(AN) for _ in range(rng.randint(1, 14)))
             if b.startswith(cc):
                 b = "7" + b
             cases.append(("generic/formatted", cc, formatted(rng, cc, b), b if cc != "US" else None))
-    return cases
+    yield cases
 
 
 # ------------------------------------------------------------------------------------------------
@@ -610,11 +613,9 @@ def run(c):
     if not ok:
         c.report("extraction/oracle build failed: " + out[-800:], {"machinery": "oracle"}, no_input=True)
         return
-    cases = gen(c, quick)
-    lines = [line("check", cc, raw) for _, cc, raw, _ in cases]
-    go = run_go(lines)
-    mo = run_oracle(lines)
     nfail = {}
+    state = {"nonidem": 0}
+    party_sel, samples, vm_sample = [], [], []
 
     def fail(kind, cc, raw, what, extra):
         k = (kind, ALIAS.get(cc, cc))
@@ -626,78 +627,90 @@ def run(c):
         rep["rerun"] = "echo '%s' | bin/vharness ; echo '%s' | bin/oracle" % (rep["case"], rep["case"])
         c.report(what, rep, finding_id=extra.get("finding"))
 
-    nonidem = 0
-    for (stream, cc, raw, canon), g, m, l in zip(cases, go, mo, lines):
-        info = "informational" in stream
-        c.count(stream, 1, raw if not info else None)
-        gv = decode(g)
-        if gv is None or len(gv) != 4:
-            fail("no-crash", cc, raw, "tax identity %s %r: implementation did not return a verdict: %s" % (cc, raw, g[:200]), {"implementation": g})
-            continue
-        try:
-            cc1, c1, gok, c2 = gv[0].decode(), gv[1].decode(), bool(gv[2]), gv[3].decode()
-        except UnicodeDecodeError:
-            fail("normalisation", cc, raw, "tax identity %s %r: normalised code is not text: %s" % (cc, raw, g), {"implementation": g})
-            continue
-        # (1) correspondence with the model
-        if g != m:
-            fail("correspondence", cc, raw, "tax identity %s %r: implementation `%s` differs from the model `%s`" % (cc, raw, g, m),
-                 {"implementation": g, "model": m})
-        # (2) normalisation as documented
-        ecc, ecode = pnorm(cc, raw)
-        if cc == "BR" and c1 == raw and ecode != raw:
-            # known finding: the BR regime does not register its normaliser, the code stays as written
-            fail("normalisation", cc, raw, "tax identity BR %r is not normalised (documented normalisation gives %r)" % (raw, ecode),
-                 {"implementation": g, "expected_code": ecode, "finding": "C13-br-normalizer-not-registered"})
-            if gok != spec_accepts(cc1, c1):
-                fail("verdict", cc, raw, "tax identity BR %r left as written is %s" % (raw, "accepted" if gok else "rejected"), {"implementation": g})
-            continue
-        if (cc1, c1) != (ecc, ecode):
-            fail("normalisation", cc, raw, "tax identity %s %r normalises to %s %r, documented normalisation gives %s %r" % (cc, raw, cc1, c1, ecc, ecode),
-                 {"implementation": g, "expected_code": ecode})
-        if canon is not None:
-            exp = pnorm(cc, canon)[1]
-            if c1 != exp:
-                fail("normalisation-insensitive", cc, raw, "tax identity %s: written form %r normalises to %r but the plain code %r gives %r"
-                     % (cc, raw, c1, canon, exp), {"implementation": g, "canonical": canon})
-        if cc not in ("FR", "US") and digits_of(c1) != digits_of(raw):
-            fail("digits-preserved", cc, raw, "tax identity %s %r: normalisation changed the digits: %r" % (cc, raw, c1), {"implementation": g})
-        if cc == "FR" and not c1.endswith(digits_of(raw)) and digits_of(raw) == "".join(ch for ch in raw.upper() if ch in AN):
-            fail("digits-preserved", cc, raw, "tax identity FR %r: normalisation changed the digits: %r" % (raw, c1), {"implementation": g})
-        # (3) idempotence (second normalisation changes nothing unless a prefix/suffix is doubled)
-        if c2 != c1:
-            if unstable(cc1, c1):
-                nonidem += 1
-                if not info:
-                    fail("idempotence", cc, raw, "tax identity %s %r: generated without doubled prefix but normalisation is not idempotent: %r then %r"
-                         % (cc, raw, c1, c2), {"implementation": g})
-            else:
-                fail("idempotence", cc, raw, "tax identity %s %r: normalisation not idempotent: %r then %r" % (cc, raw, c1, c2), {"implementation": g})
-        elif unstable(cc1, c1) and cc != "US":
-            fail("idempotence", cc, raw, "tax identity %s %r: second normalisation expected to change %r" % (cc, raw, c1), {"implementation": g})
-        # (4) verdict against the published rule
-        want = spec_accepts(cc1, c1)
-        if gok != want:
-            fid = known_finding(cc1, c1, gok)
-            fail("verdict", cc, raw, "tax identity %s %r (normalised %r) is %s by the implementation but %s by the published rule"
-                 % (cc, raw, c1, "accepted" if gok else "rejected", "valid" if want else "invalid"),
-                 {"implementation": g, "normalised": c1, "published_rule_accepts": want, "finding": fid})
-        if stream.endswith("/valid") and not want:
-            c.report("generator self-check: constructed-valid code %s %r is not valid by the specification" % (cc, raw), {"machinery": raw}, no_input=True)
-    c.cov["non_idempotent_doubled_prefix_cases(informational)"] = nonidem
+    def judge(cases):
+        lines = [line("check", cc, raw) for _, cc, raw, _ in cases]
+        go = run_go(lines)
+        mo = run_oracle(lines)
+        for (stream, cc, raw, canon), g, m, l in zip(cases, go, mo, lines):
+            info = "informational" in stream
+            c.count(stream, 1, raw if not info else None)
+            gv = decode(g)
+            if gv is None or len(gv) != 4:
+                fail("no-crash", cc, raw, "tax identity %s %r: implementation did not return a verdict: %s" % (cc, raw, g[:200]), {"implementation": g})
+                continue
+            try:
+                cc1, c1, gok, c2 = gv[0].decode(), gv[1].decode(), bool(gv[2]), gv[3].decode()
+            except UnicodeDecodeError:
+                fail("normalisation", cc, raw, "tax identity %s %r: normalised code is not text: %s" % (cc, raw, g), {"implementation": g})
+                continue
+            # (1) correspondence with the model
+            if g != m:
+                fail("correspondence", cc, raw, "tax identity %s %r: implementation `%s` differs from the model `%s`" % (cc, raw, g, m),
+                     {"implementation": g, "model": m})
+            # (2) normalisation as documented
+            ecc, ecode = pnorm(cc, raw)
+            if cc == "BR" and c1 == raw and ecode != raw:
+                # known finding: the BR regime does not register its normaliser, the code stays as written
+                fail("normalisation", cc, raw, "tax identity BR %r is not normalised (documented normalisation gives %r)" % (raw, ecode),
+                     {"implementation": g, "expected_code": ecode, "finding": "C13-br-normalizer-not-registered"})
+                if gok != spec_accepts(cc1, c1):
+                    fail("verdict", cc, raw, "tax identity BR %r left as written is %s" % (raw, "accepted" if gok else "rejected"), {"implementation": g})
+                continue
+            if (cc1, c1) != (ecc, ecode):
+                fail("normalisation", cc, raw, "tax identity %s %r normalises to %s %r, documented normalisation gives %s %r" % (cc, raw, cc1, c1, ecc, ecode),
+                     {"implementation": g, "expected_code": ecode})
+            if canon is not None:
+                exp = pnorm(cc, canon)[1]
+                if c1 != exp:
+                    fail("normalisation-insensitive", cc, raw, "tax identity %s: written form %r normalises to %r but the plain code %r gives %r"
+                         % (cc, raw, c1, canon, exp), {"implementation": g, "canonical": canon})
+            if cc not in ("FR", "US") and digits_of(c1) != digits_of(raw):
+                fail("digits-preserved", cc, raw, "tax identity %s %r: normalisation changed the digits: %r" % (cc, raw, c1), {"implementation": g})
+            if cc == "FR" and not c1.endswith(digits_of(raw)) and digits_of(raw) == "".join(ch for ch in raw.upper() if ch in AN):
+                fail("digits-preserved", cc, raw, "tax identity FR %r: normalisation changed the digits: %r" % (raw, c1), {"implementation": g})
+            # (3) idempotence (second normalisation changes nothing unless a prefix/suffix is doubled)
+            if c2 != c1:
+                if unstable(cc1, c1):
+                    state["nonidem"] += 1
+                    if not info:
+                        fail("idempotence", cc, raw, "tax identity %s %r: generated without doubled prefix but normalisation is not idempotent: %r then %r"
+                             % (cc, raw, c1, c2), {"implementation": g})
+                else:
+                    fail("idempotence", cc, raw, "tax identity %s %r: normalisation not idempotent: %r then %r" % (cc, raw, c1, c2), {"implementation": g})
+            elif unstable(cc1, c1) and cc != "US":
+                fail("idempotence", cc, raw, "tax identity %s %r: second normalisation expected to change %r" % (cc, raw, c1), {"implementation": g})
+            # (4) verdict against the published rule
+            want = spec_accepts(cc1, c1)
+            if gok != want:
+                fid = known_finding(cc1, c1, gok)
+                fail("verdict", cc, raw, "tax identity %s %r (normalised %r) is %s by the implementation but %s by the published rule"
+                     % (cc, raw, c1, "accepted" if gok else "rejected", "valid" if want else "invalid"),
+                     {"implementation": g, "normalised": c1, "published_rule_accepts": want, "finding": fid})
+            if stream.endswith("/valid") and not want:
+                c.report("generator self-check: constructed-valid code %s %r is not valid by the specification" % (cc, raw), {"machinery": raw}, no_input=True)
+
+        # samples for the party stream, the evidence file and the vm_compute cross-check
+        step = max(1, len(cases) // (4000 if quick else 3500))
+        party_sel.extend((cc, raw, g) for (_, cc, raw, _), g in list(zip(cases, go))[::step] if cc != "US")
+        samples.extend(cases[:: max(1, len(cases) // (6 if quick else 2))][:6 if quick else 1])
+        vm_sample.extend(lines[:: max(1, len(lines) // (200 if quick else 12))][:200 if quick else 12])
+
+    if quick:       # one run of the two executables over everything (fewer process start-ups)
+        judge([x for batch in gen(c, quick) for x in batch])
+    else:           # one regime at a time (bounded memory)
+        for batch in gen(c, quick):
+            judge(batch)
+    c.cov["non_idempotent_doubled_prefix_cases(informational)"] = state["nonidem"]
 
     # the same identity inside an org.Party (normalised by Calculate, validated as the tax_id field)
-    step = max(1, len(cases) // (4000 if quick else 60000))
-    psel = [(s, cc, raw) for s, cc, raw, _ in cases[::step] if cc != "US"]
-    pl = [line("party", cc, raw) for _, cc, raw in psel]
+    pl = [line("party", cc, raw) for cc, raw, _ in party_sel]
     pg = run_go(pl)
-    base = {l: g for l, g in zip(lines, go)}
-    for (s, cc, raw), g in zip(psel, pg):
+    for (cc, raw, alone), g in zip(party_sel, pg):
         c.count("party", 1, (cc, raw))
-        ref = decode(base[line("check", cc, raw)])
+        ref = decode(alone)
         gv = decode(g)
         if gv is None or ref is None or gv[:3] != ref[:3]:
-            fail("party", cc, raw, "tax identity %s %r inside a party gives `%s`, alone `%s`" % (cc, raw, g, base[line("check", cc, raw)]),
+            fail("party", cc, raw, "tax identity %s %r inside a party gives `%s`, alone `%s`" % (cc, raw, g, alone),
                  {"implementation": g, "case": line("party", cc, raw)})
 
     c.cov["rule"] = ("per regime (AE AT BE BR CH CO DE EL ES FR GB IN IT MX NL PL PT): codes constructed valid by the independent "
@@ -705,10 +718,10 @@ def run(c):
                      "national alphabet and length, written variants (separators, lower case, one leading country prefix, alternative "
                      "country codes GR/XI/XU), wrong lengths; doubled prefixes are informational; distinct = distinct (stream, raw code); "
                      "non-trivial = every counted case reaches normalisation and the national validator (informational stream not counted)")
-    for s, cc, raw, _ in cases[:: max(1, len(cases) // 6)][:6]:
+    for s, cc, raw, _ in samples[:: max(1, len(samples) // 6)][:6]:
         c.sample({"stream": s, "country": cc, "code": raw})
     # cross-check extraction on a sample inside Coq
-    samp = lines[:: max(1, len(lines) // 200)][:200]
+    samp = vm_sample[:220]
     try:
         inq = coq_eval(samp)
         mo_s = run_oracle(samp, shards=1)
